@@ -177,7 +177,27 @@ class FD(pg.Object):
   x: pg.typing.Int(default=0)
 
 
+class Maker:
+  scale = 2
+
+  @classmethod
+  def make(cls, x):
+    return (cls.__name__, x * cls.scale)
+
+
+class SubMaker(Maker):        # inherits the class method: `SubMaker.make` is bound to SubMaker
+  scale = 5
+
+
+KWONLY = lambda x, *, k=2: x * k            # a keyword-only argument with a default  # pylint: disable=unnecessary-lambda-assignment
+
+
 CALLABLES = {
+    'inherited-classmethod': SubMaker.make,
+    'lambda-kwonly-default': KWONLY,
+    'functor-default-unbound': vocab_functor(1),                       # y is left at its default: not bound
+    'functor-default-bound': vocab_functor(1, 1),                      # y bound by the user to the default's value
+    'functor-override-args': vocab_functor(1, 2, override_args=True),       # both bound; a call may override them
     'module-def': mod_def,
     'module-lambda': mod_lambda,
     'class-body-lambda': Holder.body_lambda,
@@ -208,3 +228,16 @@ class W2(pg.Object):
 
 
 CLASSES.update(W=W, W2=W2)
+
+
+# Several functions from ONE code object that differ only in their default values.
+FAMILY = [lambda x, k=k: x * k for k in (2, 3, 10)]    # pylint: disable=unnecessary-lambda-assignment
+
+
+def make_shifted(k):
+  def shifted(x, k=k):
+    return x + k
+  return shifted
+
+
+SHIFTED = [make_shifted(k) for k in (1, 5, 9)]
